@@ -2037,10 +2037,17 @@ func handleBreakingPackageEnumNoDelete(
 	if err != nil {
 		return err
 	}
+	packageToFiles, err := bufprotosource.PackageToFiles(request.ProtosourceFiles()...)
+	if err != nil {
+		return err
+	}
 	// caching across loops
 	var filePathToFile map[string]bufprotosource.File
 	for previousPackage, previousNestedNameToEnum := range previousPackageToNestedNameToEnum {
-		if nestedNameToEnum, ok := packageToNestedNameToEnum[previousPackage]; ok {
+		// A package that no longer exists is reported by PACKAGE_NO_DELETE. A package that still
+		// exists may have lost all of its enums, in which case it has no entry in the map.
+		if _, ok := packageToFiles[previousPackage]; ok {
+			nestedNameToEnum := packageToNestedNameToEnum[previousPackage]
 			for previousNestedName, previousEnum := range previousNestedNameToEnum {
 				if _, ok := nestedNameToEnum[previousNestedName]; !ok {
 					// if cache not populated, populate it
@@ -2098,10 +2105,17 @@ func handleBreakingPackageExtensionNoDelete(
 	if err != nil {
 		return err
 	}
+	packageToFiles, err := bufprotosource.PackageToFiles(request.ProtosourceFiles()...)
+	if err != nil {
+		return err
+	}
 	// caching across loops
 	var filePathToFile map[string]bufprotosource.File
 	for previousPackage, previousNestedNameToExtension := range previousPackageToNestedNameToExtension {
-		if nestedNameToExtension, ok := packageToNestedNameToExtension[previousPackage]; ok {
+		// A package that no longer exists is reported by PACKAGE_NO_DELETE. A package that still
+		// exists may have lost all of its extensions, in which case it has no entry in the map.
+		if _, ok := packageToFiles[previousPackage]; ok {
+			nestedNameToExtension := packageToNestedNameToExtension[previousPackage]
 			for previousNestedName, previousExtension := range previousNestedNameToExtension {
 				if _, ok := nestedNameToExtension[previousNestedName]; !ok {
 					// if cache not populated, populate it
@@ -2159,10 +2173,17 @@ func handleBreakingPackageMessageNoDelete(
 	if err != nil {
 		return err
 	}
+	packageToFiles, err := bufprotosource.PackageToFiles(request.ProtosourceFiles()...)
+	if err != nil {
+		return err
+	}
 	// caching across loops
 	var filePathToFile map[string]bufprotosource.File
 	for previousPackage, previousNestedNameToMessage := range previousPackageToNestedNameToMessage {
-		if nestedNameToMessage, ok := packageToNestedNameToMessage[previousPackage]; ok {
+		// A package that no longer exists is reported by PACKAGE_NO_DELETE. A package that still
+		// exists may have lost all of its messages, in which case it has no entry in the map.
+		if _, ok := packageToFiles[previousPackage]; ok {
+			nestedNameToMessage := packageToNestedNameToMessage[previousPackage]
 			for previousNestedName, previousMessage := range previousNestedNameToMessage {
 				if _, ok := nestedNameToMessage[previousNestedName]; !ok {
 					// if cache not populated, populate it
@@ -2270,10 +2291,17 @@ func handleBreakingPackageServiceNoDelete(
 	if err != nil {
 		return err
 	}
+	packageToFiles, err := bufprotosource.PackageToFiles(request.ProtosourceFiles()...)
+	if err != nil {
+		return err
+	}
 	// caching across loops
 	var filePathToFile map[string]bufprotosource.File
 	for previousPackage, previousNameToService := range previousPackageToNameToService {
-		if nameToService, ok := packageToNameToService[previousPackage]; ok {
+		// A package that no longer exists is reported by PACKAGE_NO_DELETE. A package that still
+		// exists may have lost all of its services, in which case it has no entry in the map.
+		if _, ok := packageToFiles[previousPackage]; ok {
+			nameToService := packageToNameToService[previousPackage]
 			for previousName, previousService := range previousNameToService {
 				if _, ok := nameToService[previousName]; !ok {
 					// if cache not populated, populate it
